@@ -93,7 +93,7 @@ def call_length(obj, t0, t1, opts, scale):
     return obj.length(t0, t1, **kw)
 
 
-def check_segment(name, scale, cfg, acc, only=None, budget=None, rot=0, shift=0j, opts=None):
+def check_segment(name, scale, cfg, acc, only=None, budget=None, rot=0, shift=0j, opts=None, usq=None):
     seg = AB.make(name, scale, rot=rot, shift=shift)
     kind = type(seg).__name__[0]
     cfgname = 'scipy' if cfg else 'fallback'
@@ -118,6 +118,8 @@ def check_segment(name, scale, cfg, acc, only=None, budget=None, rot=0, shift=0j
             case = {'what': 'segment', 'shape': name, 'scale': scale, 'config': cfg, 't0': t0, 't1': t1, 'rot': rot, 'shift': core.jz(shift)}
             if opts:
                 case['opts'] = opts
+            if usq is not None:
+                case['use_scipy_quad'] = usq
             counter['n'] = 0
             try:
                 fresh = AB.make(name, scale, rot=rot, shift=shift)       # fresh object: no cache from earlier intervals
@@ -133,6 +135,8 @@ def check_segment(name, scale, cfg, acc, only=None, budget=None, rot=0, shift=0j
                    'interval': 'full' if (t0, t1) == (0.0, 1.0) else ('empty' if t0 == t1 else 'sub')}
             if opts:
                 sig['options'] = sorted(k for k in opts if k != 'how')
+            if usq is not None:
+                sig['module_setting'] = 'USE_SCIPY_QUAD=%r' % usq
             if r[0] != 'ok':
                 acc.violation('length_raises', dict(sig, exc=r[1]), case, observed=r)
                 continue
@@ -270,6 +274,10 @@ def shards(tier, seed):
     # the same segments as the library hands them out (derived objects: numpy scalars, warm caches, ...)
     out += AB.provenance_shards(out, tier, lambda d: d['what'] == 'segment' and d['rot'] in (0, 37) and 'shift' not in d and
                                 d['scale'] == (1.0 if d['config'] else 2.0 ** -6))
+    # the documented module-level switch USE_SCIPY_QUAD turned off (arcs; scipy itself still installed)
+    for n in AB.ARCS:
+        for rot in (0, 37):
+            out.append({'what': 'segment', 'config': True, 'scale': 2.0 ** -6, 'shape': n, 'rot': rot, 'use_scipy_quad': False})
     # non-default error / min_depth, keyword and positional
     for cfg in (False, True):
         for n in names():
@@ -287,7 +295,10 @@ def run_shard(desc, tier, seed):
     acc = core.Acc()
     tp = tier_params(tier, seed)
     old = sp._quad_available
+    old_usq = sp.USE_SCIPY_QUAD
     sp._quad_available = bool(desc['config'])
+    if desc.get('use_scipy_quad') is not None:
+        sp.USE_SCIPY_QUAD = desc['use_scipy_quad']
     try:
         if desc['what'] == 'paths':
             check_paths(desc['config'], acc)
@@ -295,9 +306,10 @@ def run_shard(desc, tier, seed):
         else:
             check_segment(desc['shape'], desc['scale'], desc['config'], acc,
                           budget=None if desc['config'] else tp['budget'], rot=desc.get('rot', 0),
-                          shift=complex(*desc.get('shift', [0, 0])), opts=LENGTH_OPTS[desc.get('opts', 0)])
+                          shift=complex(*desc.get('shift', [0, 0])), opts=LENGTH_OPTS[desc.get('opts', 0)], usq=desc.get('use_scipy_quad'))
     finally:
         sp._quad_available = old
+        sp.USE_SCIPY_QUAD = old_usq
     return acc
 
 
@@ -323,7 +335,10 @@ def space(tier, seed):
 def replay(case):
     acc = core.ReplayAcc()
     old = sp._quad_available
+    old_usq = sp.USE_SCIPY_QUAD
     sp._quad_available = bool(case['config'])
+    if case.get('use_scipy_quad') is not None:
+        sp.USE_SCIPY_QUAD = case['use_scipy_quad']
     try:
         if case['what'] == 'long_path':
             check_long_paths(case['config'], acc)
@@ -331,10 +346,11 @@ def replay(case):
         elif case['what'] == 'path':
             check_paths(case['config'], acc)
         elif 'tm' in case:
-            check_segment(case['shape'], case['scale'], case['config'], acc, rot=case.get('rot', 0), shift=complex(*case.get('shift', [0, 0])), opts=case.get('opts'))
+            check_segment(case['shape'], case['scale'], case['config'], acc, rot=case.get('rot', 0), shift=complex(*case.get('shift', [0, 0])), opts=case.get('opts'), usq=case.get('use_scipy_quad'))
             acc.vlist = [v for v in acc.vlist if v['clause'] == 'not_additive']
         else:
-            check_segment(case['shape'], case['scale'], case['config'], acc, only=[(case['t0'], case['t1'])], rot=case.get('rot', 0), shift=complex(*case.get('shift', [0, 0])), opts=case.get('opts'))
+            check_segment(case['shape'], case['scale'], case['config'], acc, only=[(case['t0'], case['t1'])], rot=case.get('rot', 0), shift=complex(*case.get('shift', [0, 0])), opts=case.get('opts'), usq=case.get('use_scipy_quad'))
     finally:
         sp._quad_available = old
+        sp.USE_SCIPY_QUAD = old_usq
     return acc.vlist
